@@ -324,3 +324,41 @@ func factsStr(cs []eng.Cond) string {
 	}
 	return s
 }
+
+// filteredByCheck: name is an element of slices.DeleteFunc(L, func(n) bool {
+// return !<successful check of action on n for caller> }): every element the
+// filter keeps passed the check.
+func (d *dbInfo) filteredByCheck(name ssa.Value, caller *ssa.Parameter, action string) bool {
+	u, ok := eng.Origin(name).(*ssa.UnOp)
+	if !ok {
+		return false
+	}
+	ia, ok := u.X.(*ssa.IndexAddr)
+	if !ok {
+		return false
+	}
+	call, _ := eng.TupleCall(ia.X)
+	if call == nil || !eng.CalleeIs(&call.Call, "slices", "DeleteFunc") || len(call.Call.Args) != 2 {
+		return false
+	}
+	mc, ok := eng.Origin(call.Call.Args[1]).(*ssa.MakeClosure)
+	if !ok {
+		return false
+	}
+	g := mc.Fn.(*ssa.Function)
+	if len(g.Params) != 1 {
+		return false
+	}
+	rets := eng.Returns(g)
+	if len(rets) == 0 {
+		return false
+	}
+	for _, r := range rets {
+		// the element is kept when the literal answers false
+		kept := eng.CondOf(eng.RetVals(r)[0], false)
+		if matched, _ := d.successfulCheck(kept, caller, action, g.Params[0]); !matched {
+			return false
+		}
+	}
+	return true
+}
